@@ -9,9 +9,9 @@ import (
 
 	"verif/harness/chain"
 
-	"mods.irisnet.org/simapp"
 	tokentypes "mods.irisnet.org/modules/token/types"
 	v1 "mods.irisnet.org/modules/token/types/v1"
+	"mods.irisnet.org/simapp"
 )
 
 // token: Params{TokenTaxRate, IssueTokenBaseFee, MintTokenFeeRatio, EnableErc20, Beacon}
